@@ -495,6 +495,42 @@ def num_shorthex(p, res):
     if n_short and n_long:
         res.ok('as_hex: short form exactly under short and is_short_hex(r), (g), (b); channels in r, g, b order', n=3)
     ev = MiniEval(p, hooks={'emmet.stylesheet.color.frac': lambda num, digits=4: str(num)})
+    if res.undecideds and not res.findings:
+        # Fallback when the paths of as_hex are no longer readable symbolically: as_hex may touch the channel values only by handing
+        # them to is_short_hex / to_hex / to_short_hex (checked structurally); these three are tabulated over all 256 values below, so
+        # as_hex is decided by its table over the 2 x 2^3 classes (short requested?, r/g/b short-able?) with one representative each.
+        helpers = {'is_short_hex', 'to_hex', 'to_short_hex'}
+        pm = p.parents(f)
+        only_args = True
+        for n in f.body_nodes():
+            if isinstance(n, ast.Attribute) and isinstance(n.value, ast.Name) and n.value.id == tok and n.attr in ('r', 'g', 'b'):
+                par = pm.get(n)
+                while isinstance(par, (ast.Tuple, ast.List)):
+                    par = pm.get(par)
+                ok_use = isinstance(par, ast.Call) and isinstance(par.func, ast.Name) and (par.func.id in helpers or par.func.id in ('map', 'tuple', 'list')) \
+                    or isinstance(par, ast.Assign)
+                if not ok_use:
+                    only_args = False
+        if only_args and not any(isinstance(n, (ast.Compare, ast.AugAssign)) or (isinstance(n, ast.BinOp) and not isinstance(n.op, (ast.Add, ast.Mod))) for n in f.body_nodes()):
+            try:
+                wrong = None
+                for want_short in (True, False):
+                    for mask in range(8):
+                        ch = [0x11 if mask & (1 << i) else 0x12 for i in range(3)]
+                        got = ev.call(f, [Rec(r=ch[0], g=ch[1], b=ch[2], a=1), want_short])
+                        use_short = want_short and mask == 7
+                        exp = '#' + ''.join(('%x' % (c >> 4)) if use_short else ('%02x' % c) for c in ch)
+                        if got != exp and wrong is None:
+                            wrong = (want_short, ch, got, exp)
+                if wrong is None:
+                    res.undecideds[:] = [u for u in res.undecideds if not u[0].startswith('as_hex')]
+                    res.ok('as_hex: table over the 16 classes (short requested, r/g/b short-able): short form exactly when requested and every channel allows it', n=3)
+                else:
+                    res.undecideds[:] = [u for u in res.undecideds if not u[0].startswith('as_hex')]
+                    res.bad(F('NUM-SHORTHEX', f, f.node, 'as_hex(r=%#x, g=%#x, b=%#x, short=%r) -> %r' % (wrong[1][0], wrong[1][1], wrong[1][2], wrong[0], wrong[2]),
+                              'expected %r: the short form must be chosen exactly when it is requested and every channel is short-able, channels in r, g, b order' % wrong[3]))
+            except AnalysisError:
+                pass
     ish = p.func('stylesheet.color.is_short_hex')
     tsh = p.func('stylesheet.color.to_short_hex')
     # finite table: all 256 channel values
